@@ -89,6 +89,13 @@ class Extractor(object):
         if isinstance(expr, ast.UnaryOp) and isinstance(expr.op, ast.Not):
             t, f = self._cond(expr.operand, paths)
             return f, t
+        # canonical polarity: `a is not b`, `a != b`, `a not in b` are the negations of `a is b`, `a == b`, `a in b`
+        if isinstance(expr, ast.Compare) and len(expr.ops) == 1 and isinstance(expr.ops[0], (ast.IsNot, ast.NotEq, ast.NotIn)):
+            pos = {ast.IsNot: ast.Is, ast.NotEq: ast.Eq, ast.NotIn: ast.In}[type(expr.ops[0])]()
+            e2 = ast.Compare(left=expr.left, ops=[pos], comparators=expr.comparators)
+            ast.copy_location(e2, expr)
+            t, f = self._cond(e2, paths)
+            return f, t
         ts, fs = [], []
         for p in paths:
             src = subst(expr, p.env)
@@ -250,11 +257,18 @@ def _has_call(expr):
 
 
 def _fold_atom(src):
-    """constant-fold trivially decidable atoms: `None is None`, `None is not None`, `<literal> is None`"""
-    if src in ("None is None",):
-        return True
-    if src in ("None is not None",):
-        return False
+    """constant-fold atoms that contain no names (e.g. `None is None`, `1.0 is None`, `False`, `1.0 < 1e-08`)"""
+    from .astutil import const_value
+
+    try:
+        e = ast.parse(src, mode="eval").body
+    except SyntaxError:
+        return None
+    if any(isinstance(n, (ast.Name, ast.Attribute, ast.Call, ast.Subscript)) for n in ast.walk(e)):
+        return None
+    ok, v = const_value(e)
+    if ok:
+        return bool(v)
     return None
 
 
